@@ -1,4 +1,6 @@
 import Proofs.Store
+import Proofs.RefsClosed
+import Props.C09
 /-!
 # C17 — the block store is causally closed at every instant (crash safety)
 
@@ -76,5 +78,124 @@ theorem store_only_grows {s s' : Sys} {op : Op} (hstep : s.step op = some s') : 
 /-- the decidable predicate evaluated on the implementation's write log implies the property -/
 theorem checked_predicate_sound (U : List Entry) (h : prefixClosedB U = true) :
     ∀ n, ∀ e ∈ U.take n, ∀ c ∈ e.next ++ e.refs, c ∈ hashes (U.take n) := prefixClosedB_sound U h
+
+/-- a whole history only appends block writes -/
+theorem run_store_grows : ∀ (ops : List Op) {s s' : Sys}, s.run ops = some s' → ∃ t, s'.uni = s.uni ++ t
+  | [], s, s', h => by simp [Sys.run] at h; exact ⟨[], by rw [h]; simp⟩
+  | op :: ops, s, s', h => by
+    simp only [Sys.run] at h
+    cases hs : s.step op with
+    | none => rw [hs] at h; cases h
+    | some s1 =>
+      rw [hs] at h
+      obtain ⟨t1, h1⟩ := store_only_grows hs
+      obtain ⟨t2, h2⟩ := run_store_grows ops h
+      exact ⟨t1 ++ t2, by rw [h2, h1, List.append_assoc]⟩
+
+/-- the replica as the block store sees it: the hypothesis of the fetcher theorems of C09, discharged
+    for every replica of every reachable system and every store that holds the replica's universe -/
+theorem source_in_store {s : Sys} (hr : Reachable s) {r : Nat} {l : Log} (hl : s.logs r = some l)
+    (cfg : FCfg) (hstore : ∀ e ∈ s.uni, get? cfg.store e.hash = some e) (hdef : [] ∉ hashes s.uni) :
+    C09.SourceInStore cfg l.entries (jsonHeads l) := by
+  have I := (reachable_inv hr).inv r l hl
+  have R := reachable_refsIn hr hl
+  have hroots : ∀ h, h ∈ jsonHeads l ↔ h ∈ hashes l.heads := by
+    intro h
+    unfold jsonHeads hashes
+    simp only [List.mem_map]
+    exact ⟨fun ⟨x, hx, hxh⟩ => ⟨x, mem_goSort.mp hx, hxh⟩, fun ⟨x, hx, hxh⟩ => ⟨x, mem_goSort.mpr hx, hxh⟩⟩
+  have hstored : ∀ e ∈ l.entries, get? cfg.store e.hash = some e := fun e he => hstore e (I.inU e he)
+  refine ⟨hstored, ?_, ?_, ?_, ?_⟩
+  · intro e he hh
+    apply hdef
+    rw [← hh]
+    exact List.mem_map.mpr ⟨e, I.inU e he, rfl⟩
+  · intro h hh
+    obtain ⟨x, hx, hxh⟩ := List.mem_map.mp ((hroots h).mp hh)
+    exact ⟨x, I.headsIn x hx, hxh⟩
+  · intro e he c hc
+    rcases List.mem_append.mp hc with h1 | h1
+    · exact has_iff.mp (I.closed e he c h1)
+    · exact List.mem_map.mp (R e he c h1)
+  · intro e he
+    obtain ⟨hd, hhd, hdesc⟩ := every_entry_below_some_head I e he
+    have : ∀ a b, Desc l.entries a b → a = hd → Anc cfg (jsonHeads l) b.hash := by
+      intro a b d
+      induction d with
+      | refl ha =>
+        intro e1; subst e1
+        exact Anc.root ((hroots _).mpr (List.mem_map.mpr ⟨_, hhd, rfl⟩))
+      | step d hc hg ih =>
+        intro e1
+        have hb := hstored _ (Desc.mem_right d)
+        have hp := (get?_mem hg).2
+        rw [hp]
+        exact Anc.next (ih e1) hb hc
+    exact this hd e hdesc rfl
+
+/-- **C17, end to end in the model.**  `l` is the state of a replica at some point of a history (`s`);
+    the history continues arbitrarily (`ops`, reaching `s'`), and the process may crash between any two
+    later block writes (the store is the prefix `s'.uni.take n`, `n ≥ |s.uni|` because `Append` writes
+    before it publishes).  Then what the published manifest of `l` names — its id and head hashes —
+    loads, by *any* accepted unbounded execution of the fetcher and each of the four loaders, to
+    exactly `l`: same id, same entries, same heads, same `Values()` under a strict total ordering. -/
+theorem published_state_loads {s s' : Sys} (hr : Reachable s) (ops : List Op) (hrun : s.run ops = some s')
+    {r : Nat} {l : Log} (hl : s.logs r = some l) (n : Nat) (hn : s.uni.length ≤ n)
+    (hdef : [] ∉ hashes s'.uni)
+    (cfg : FCfg) (hstore : cfg.store = s'.uni.take n) (hlen : cfg.length < 0) (hex : ∀ h, cfg.excluded h = false)
+    (evs : List FEvent) (st : FState)
+    (h : accepted cfg (jsonHeads l) evs = some st) (hq : quiescent st) (hc : st.cancelled = false)
+    (clockId : Bytes) (k k' : SortKind) :
+    C09.SameLog s.uni l (loadManifest clockId k k' l.id (jsonHeads l) st.results (-1)) ∧
+    C09.SameLog s.uni l (loadEntryHash clockId k l.id st.results (-1)) ∧
+    C09.SameLog s.uni l (loadJSON clockId k l.id st.results (-1)) ∧
+    (∀ source, (∀ e ∈ source, e ∈ l.entries) → source ≠ [] →
+      ∃ L, loadEntries clockId k source st.results (-1) = some L ∧ C09.SameLog s.uni l L) := by
+  have I := reachable_inv hr
+  have I' := sysInv_run ops I hrun
+  obtain ⟨t, ht⟩ := run_store_grows ops hrun
+  have hsub : ∀ e ∈ s.uni, e ∈ s'.uni.take n := by
+    intro e he
+    rw [ht, List.take_append]
+    exact List.mem_append_left _ (by rw [List.take_of_length_le hn]; exact he)
+  have hnd : (hashes (s'.uni.take n)).Nodup := by
+    have := I'.uni
+    unfold hashes at this ⊢
+    exact ((List.take_sublist n s'.uni).map _).nodup this
+  have hget : ∀ e ∈ s.uni, get? cfg.store e.hash = some e := by
+    intro e he
+    rw [hstore]
+    exact get?_eq_of_mem hnd (hsub e he)
+  have hdef' : [] ∉ hashes s.uni := by
+    intro hm
+    apply hdef
+    obtain ⟨y, hy, hyh⟩ := List.mem_map.mp hm
+    exact List.mem_map.mpr ⟨y, by rw [ht]; exact List.mem_append_left _ hy, hyh⟩
+  have src := source_in_store hr hl cfg hget hdef'
+  have hroots : ∀ h, h ∈ jsonHeads l ↔ h ∈ hashes l.heads := by
+    intro h
+    unfold jsonHeads hashes
+    simp only [List.mem_map]
+    exact ⟨fun ⟨x, hx, hxh⟩ => ⟨x, mem_goSort.mp hx, hxh⟩, fun ⟨x, hx, hxh⟩ => ⟨x, mem_goSort.mpr hx, hxh⟩⟩
+  have Il := I.inv r l hl
+  exact C09.rebuilt_equals_original I.uni Il cfg (jsonHeads l) evs st hroots hlen hex src h hq hc clockId k k'
+
+/-! non-vacuity: a forked and merged two-replica history is reachable, its replicas exist, no block has
+the undefined hash, and the history continues (the hypotheses of `published_state_loads`; an accepted
+fetcher execution on such a store is exhibited in `Props/C09.lean`) -/
+def demoOps : List Op :=
+  [.newLog [88] [4, 1] .lww, .newLog [88] [4, 2] .lww, .append 0 0 [1] 0, .append 1 0 [2] 0, .append 0 2 [3] 0,
+   .join 0 1, .join 1 0, .append 1 2 [4] 0]
+def demoLater : List Op := [.append 0 0 [5] 0, .join 0 1]
+
+def demoCheck : Bool :=
+  match Sys.init.run demoOps with
+  | some s =>
+    (match s.logs 1, s.run demoLater with
+     | some l, some s' => l.entries.length == 4 && !(hashes s'.uni).contains [] && s.uni.length ≤ 4 && s'.uni.length == 5
+     | _, _ => false)
+  | none => false
+
+example : demoCheck = true := by decide
 
 end Model.C17
